@@ -10,5 +10,6 @@ func genExtra(repo string) map[string]string {
 		"Gen_check_ir.v":   genCheckIR(repo),
 		"Gen_vars.v":       genVars(repo),
 		"Gen_blamka.v":     genBlamka(repo),
+		"Gen_index.v":      genIndex(repo),
 	}
 }
